@@ -11,7 +11,9 @@ RULE = (
     "all 25 ordered pairs of {Point, Line, HalfLine, Segment, Plane}; first operand a free lattice flat "
     "(|x|<=8, denominators 1,2,4; small integer directions), second operand constructed from it by a "
     "relation recipe (on/off/collinear x 12 interval relations/parallel-off/cross at inside|end|beyond "
-    "parameters/skew/in-plane/contains/perpendicular/coincident/free), one Hypothesis run per "
+    "parameters/crossing carriers with a shared coordinate-plane projection/skew/in-plane/contains/perpendicular/"
+    "coincident/free; Point pairs differing only by -1 vs -2), directions include quarter-lattice and short vectors; "
+    "one Hypothesis run per "
     "(pair, recipe) stratum; intersection(a,b), intersection(b,a) and a.intersection(b) are each compared "
     "with the exact rational intersection (kind, end points within 1e-7, direction/normal parallel). "
     "non-trivial = exact result non-empty or the operands are parallel/collinear/coplanar (exact test); "
